@@ -135,12 +135,26 @@ static void setup_container(Runner &r, const Tier &t) {
             size_t bal1 = allocated_bytes(); if (bal1 != bal0) { JObj o; o.kv("prop", "C01").kv("kind", "load_contract").kv("why", "memory still allocated after a file face was destroyed or failed to load").kv("mutant", g_seeds[p.seed].name + " sfnt@" + std::to_string(p.off) + "=" + std::to_string(v)); report_fail(i, o); } }
         unlink(path.c_str()); };
 }
+
+// ---- compressed payloads: every byte of the LZ4 block (and the 8-byte wrapper) of the compressed seeds ----
+struct ZPos { int seed, tag; uint32_t off; }; static std::vector<ZPos> g_zp;
+static void setup_zpayload(Runner &r, const Tier &t) {
+    load_seeds(true); g_zp.clear();     // needs the compressed seeds regardless of tier
+    for (int si = 0; si < int(g_seeds.size()); ++si) { const std::string &n = g_seeds[si].name; bool small = n == "s_full_z.ttf"; bool big = t.thorough && n == "Awami_compressed_test.ttf"; if (!small && !big) continue;
+        for (int ti = 0; ti < int(g_seeds[si].tags.size()); ++ti) { uint32_t tag = g_seeds[si].tags[ti]; if (tag != mktag("Silf") && tag != mktag("Glat")) continue; const Bytes &b = g_seeds[si].ts.t[tag]; if (b.size() < 8 || (be32(&b[4]) >> 27) == 0) continue;
+            size_t n2 = b.size(); for (uint32_t o = 0; o < n2; ++o) if (small || o < 300 || o + 100 > n2) g_zp.push_back({ si, ti, o }); } }
+    r.ncases = g_zp.size(); r.case_alarm_s = 600;
+    r.describe = [](uint64_t i) { const ZPos &b = g_zp[i]; const Seed &s = g_seeds[b.seed]; JObj o; o.kv("seed", s.name).kv("compressed_table", tagstr(s.tags[b.tag])).kv("offset", b.off).kv("values", "all 255 other byte values"); return o; };
+    r.body = [](uint64_t i, ShardCtl &c) { const ZPos &b = g_zp[i]; const Seed &s = g_seeds[b.seed]; TableSet ts = s.ts; Bytes &tb = ts.t[s.tags[b.tag]]; uint8_t orig = tb[b.off]; bool big = tb.size() > 4096;
+        for (int v = 0; v < 256; v += big ? 17 : 1) { if (v == orig) continue; tb[b.off] = uint8_t(v); try_font(i, ts, 0, c, mdesc(s, s.tags[b.tag], b.off, 1, v), !big); } };
+}
 int main(int argc, char **argv) {
     std::vector<Sub> subs; std::vector<std::string> cn = { "loads", "accepted", "segments_on_accepted_mutants" };
     { Sub s; s.name = "bytes"; s.setup = setup_bytes; s.budget_quick = 140; s.budget_thorough = 1500; s.counter_names = cn; subs.push_back(s); }
     { Sub s; s.name = "fields"; s.setup = setup_fields; s.budget_quick = 140; s.budget_thorough = 1500; s.counter_names = cn; subs.push_back(s); }
     { Sub s; s.name = "truncation"; s.setup = setup_trunc; s.budget_quick = 100; s.budget_thorough = 900; s.counter_names = cn; subs.push_back(s); }
     { Sub s; s.name = "container"; s.setup = setup_container; s.budget_quick = 60; s.budget_thorough = 300; s.counter_names = cn; subs.push_back(s); }
+    { Sub s; s.name = "compressed_payload"; s.setup = setup_zpayload; s.budget_quick = 100; s.budget_thorough = 900; s.counter_names = cn; subs.push_back(s); }
     { Sub s; s.name = "pairs"; s.setup = setup_pairs; s.budget_quick = 100; s.budget_thorough = 1500; s.counter_names = cn; subs.push_back(s); }
     return check_main(argc, argv, "C01", subs);
 }
